@@ -221,6 +221,12 @@ def run(ctx):
         idspec = dbside.IdSpec() if not custom else dbside.IdSpec("D", table={"gene": [("a", gkey)], "transcript": [("a", tkey)]})
         cfg = dbside.Cfg(idspec=idspec, disG=disG, disT=disT, tkey=tkey, gkey=gkey, sub=sub)
         lines = gen_db.gtf_lines(recs, gkey=gkey, tkey=tkey)
+        if i % 6 == 3:
+            # an earlier import of this process that used custom gtf_gene_key / gtf_transcript_key WITHOUT an id_spec of
+            # its own (its outcome is not judged): whatever it did must not leak into the imports that follow
+            pre = dbside.write_lines(os.path.join(ctx.scratch, "c03pre.gtf"), gen_db.gtf_lines(recs, gkey="gid", tkey="tid"))
+            dbside.py_create(pre, dbside.Cfg(tkey="tid", gkey="gid"))
+            res.count("preceded_by_custom_key_import_without_id_spec")
         path = dbside.write_lines(os.path.join(ctx.scratch, "c03.gtf"), lines)
         db, rep = dbside.py_create(path, cfg)
         res.evaluations += 1
